@@ -36,6 +36,9 @@ pub enum GenerateError {
 
     /// The mips view of a texture only exists as part of a load expression so the type has no name to export
     UnsupportedMipsIntermediate,
+
+    /// An untyped integer constant is outside the range of values that can be written as a literal
+    IntLiteralOutOfRange,
 }
 
 /// Generate HLSL ast from ir module
@@ -1238,7 +1241,7 @@ fn generate_literal(
         ir::Constant::IntLiteral(v) if v >= 0 && v <= u64::MAX as i128 => {
             ast::Literal::IntUntyped(v as u64)
         }
-        ir::Constant::IntLiteral(_) => panic!("cannot represent {literal:?}"),
+        ir::Constant::IntLiteral(_) => return Err(GenerateError::IntLiteralOutOfRange),
         ir::Constant::Int32(v) if v < 0 => {
             return Ok(ast::Expression::UnaryOperation(
                 ast::UnaryOp::Minus,
